@@ -735,8 +735,8 @@ Proof. exact compose_inhabited. Qed.
    trims the input); set_query - no '#', and no such ending when the URL has no fragment; set_port - none;
    set_password - non-empty, no TAB/LF/CR, '@', '/', '?', '#' ('\' for special schemes); set_username - the same and no ':'.
    The bound nlen (ser u') <= U32_MAX_P is the parser's own u32 check.
-   NOT covered: set_path, set_host (state-level agreement only: C06_parser_agreement_set_path / _set_host), removal calls
-   (argument None / empty password), file URLs. *)
+   set_path and set_host(Some) are section 19, the removal calls (argument None / empty password) sections 22 and 24.
+   NOT covered: file URLs. *)
 From RU Require Import Proofs.C02_Canon Proofs.C06_Splice Proofs.C06_SpliceAuth Proofs.C06_SpliceCred Proofs.C06_SpliceEx.
 
 Theorem C06_splice_agreement_set_fragment : forall dbg hp hpo hd u x u', HostRT hp hpo hd -> Canon hp hpo hd u ->
@@ -840,4 +840,334 @@ Example C06_splice_agreement_inhabited :
 Proof.
   split; [exact (proj1 ex_host_RT)|]. split; [exact (proj1 splice_canon_examples)|]. split; [exact (proj2 splice_canon_examples)|].
   exact splice_inhabited.
+Qed.
+
+(* 19. WHOLE-URL parser agreement for set_path and set_host(Some) - the two setters section 18 left at the state level.
+   For a canonical record u WITH an authority (both classes: non-special scheme, special non-file scheme):
+   - set_path(x), x free of '?' and '#' (the parser ends the path there, the setter encodes them) and EMPTY OR '/'-LED - or
+     '\'-led on a special URL, where both sides read it as '/' -
+     (path_arg_ok; otherwise the spliced text continues the host or port text: it is not a splice of the path), and -
+     only when the URL has neither query nor fragment - not ending in a C0 control or space: parse_url on
+     front ++ x ++ "?query#fragment" returns exactly the setter's record; the setter's record is the canonical record
+     with the path the parser's path-start state writes for x (Proofs/C06_SplicePath.v: set_path_auth).
+   - set_host(Some x), x free of TAB/LF/CR, ':' '/' '?' '#' '[' ']' '@' (and '\' for a special scheme) - hostarg: the
+     characters at which the parser's '@' / host scan stops or switches mode while the setter hands x to the host
+     parser whole -, not ending in C0/space when nothing follows the host; excluded result (empty_host_ok): the EMPTY
+     host on a special URL or a URL with credentials or a port (F-C02-4): parse_url on
+     "scheme://userinfo" ++ x ++ ":port/path?query#fragment" returns exactly the setter's record
+     (Proofs/C06_SpliceHost.v: set_host_auth computes it: auth_url .. h' .. with h' the host the parser of the scheme
+     type returns for x).
+   Both results are canonical again (C06_set_path_Canon, C06_set_host_Canon), so the theorems apply along histories.
+   NOT covered: bracketed IPv6 host arguments, the authority-less layouts, file URLs. *)
+From RU Require Import Proofs.C02_Reach3 Proofs.C06_SplicePath Proofs.C06_SpliceHost Proofs.C06_SpliceEx2 Proofs.C06_All.
+
+Theorem C06_splice_agreement_set_path : forall dbg hp hpo hd u x u', HostRT hp hpo hd -> Canon hp hpo hd u ->
+  has_authority_b u = true -> usv_list x -> forallb no_qh x = true -> path_arg_ok (sp_of u) x ->
+  (query_start u = None -> fragment_start u = None -> first_ok (rev x)) ->
+  set_path dbg u x = Some u' -> nlen (ser u') <= U32_MAX_P ->
+  parse_url dbg hp hpo hd None None (splice_path u x) = POk u'.
+Proof. intros dbg hp hpo hd u x u' HRT. exact (splice_agreement_set_path dbg hp hpo hd HRT u x u'). Qed.
+Check C06_splice_agreement_set_path : forall dbg hp hpo hd u x u', HostRT hp hpo hd -> Canon hp hpo hd u ->
+  has_authority_b u = true -> usv_list x -> forallb no_qh x = true -> path_arg_ok (sp_of u) x ->
+  (query_start u = None -> fragment_start u = None -> first_ok (rev x)) ->
+  set_path dbg u x = Some u' -> nlen (ser u') <= U32_MAX_P ->
+  parse_url dbg hp hpo hd None None (splice_path u x) = POk u'.
+Print Assumptions C06_splice_agreement_set_path.
+
+Theorem C06_splice_agreement_set_host : forall dbg hp hpo hd u x u', HostRT hp hpo hd -> host_above hp hpo hd ->
+  Canon hp hpo hd u -> has_authority_b u = true -> usv_list x -> forallb (hostarg (sp_of u)) x = true ->
+  (nskipn (host_end u) (ser u) = [] -> first_ok (rev x)) ->
+  set_host dbg hp hpo hd u (Some x) = Some (u', SOk) -> empty_host_ok u u' -> nlen (ser u') <= U32_MAX_P ->
+  parse_url dbg hp hpo hd None None (splice_host u x) = POk u'.
+Proof. intros dbg hp hpo hd u x u' HRT HAb. exact (splice_agreement_set_host dbg hp hpo hd HRT HAb u x u'). Qed.
+Check C06_splice_agreement_set_host : forall dbg hp hpo hd u x u', HostRT hp hpo hd -> host_above hp hpo hd ->
+  Canon hp hpo hd u -> has_authority_b u = true -> usv_list x -> forallb (hostarg (sp_of u)) x = true ->
+  (nskipn (host_end u) (ser u) = [] -> first_ok (rev x)) ->
+  set_host dbg hp hpo hd u (Some x) = Some (u', SOk) -> empty_host_ok u u' -> nlen (ser u') <= U32_MAX_P ->
+  parse_url dbg hp hpo hd None None (splice_host u x) = POk u'.
+Print Assumptions C06_splice_agreement_set_host.
+
+Theorem C06_set_path_Canon : forall dbg hp hpo hd u x u', HostRT hp hpo hd -> Canon hp hpo hd u ->
+  has_authority_b u = true -> usv_list x -> forallb no_qh x = true -> path_arg_ok (sp_of u) x ->
+  set_path dbg u x = Some u' -> nlen (ser u') <= U32_MAX_P -> Canon hp hpo hd u'.
+Proof. intros dbg hp hpo hd u x u' HRT. exact (set_path_Canon dbg hp hpo hd HRT u x u'). Qed.
+Check C06_set_path_Canon : forall dbg hp hpo hd u x u', HostRT hp hpo hd -> Canon hp hpo hd u ->
+  has_authority_b u = true -> usv_list x -> forallb no_qh x = true -> path_arg_ok (sp_of u) x ->
+  set_path dbg u x = Some u' -> nlen (ser u') <= U32_MAX_P -> Canon hp hpo hd u'.
+Print Assumptions C06_set_path_Canon.
+
+Theorem C06_set_host_Canon : forall dbg hp hpo hd u x u', HostRT hp hpo hd -> host_above hp hpo hd ->
+  Canon hp hpo hd u -> has_authority_b u = true -> forallb (hostarg (sp_of u)) x = true ->
+  set_host dbg hp hpo hd u (Some x) = Some (u', SOk) -> empty_host_ok u u' -> nlen (ser u') <= U32_MAX_P ->
+  Canon hp hpo hd u'.
+Proof. intros dbg hp hpo hd u x u' HRT HAb. exact (set_host_Canon dbg hp hpo hd HRT HAb u x u'). Qed.
+Check C06_set_host_Canon : forall dbg hp hpo hd u x u', HostRT hp hpo hd -> host_above hp hpo hd ->
+  Canon hp hpo hd u -> has_authority_b u = true -> forallb (hostarg (sp_of u)) x = true ->
+  set_host dbg hp hpo hd u (Some x) = Some (u', SOk) -> empty_host_ok u u' -> nlen (ser u') <= U32_MAX_P ->
+  Canon hp hpo hd u'.
+Print Assumptions C06_set_host_Canon.
+
+(* the hypotheses are met (ex_hp / ex_hd satisfy HostRT and host_above; qx_u = "a://h:80/p?q#f" and sx_u = "http://u:p@h/p"
+   are canonical: C06_splice_agreement_inhabited): the spliced texts are "a://h:80/a b/../c?q#f" (result "a://h:80/c?q#f"),
+   "http://u:p@h/x y", "http://u:p@h\x" (result "http://u:p@h/x"), "a://h:80?q#f" (empty argument), "a://x.y:80/p?q#f", "http://u:p@abc/p" *)
+Example C06_splice_agreement2_inhabited :
+  has_authority_b qx_u = true /\ has_authority_b sx_u = true
+  /\ splice_case (set_path true qx_u (B "/a b/../c")) (splice_path qx_u (B "/a b/../c")) (B "a://h:80/a b/../c?q#f") "a://h:80/c?q#f"
+  /\ forallb no_qh (B "/a b/../c") = true /\ path_arg_ok (sp_of qx_u) (B "/a b/../c")
+  /\ splice_case (set_path true sx_u (B "/x y")) (splice_path sx_u (B "/x y")) (B "http://u:p@h/x y") "http://u:p@h/x%20y"
+  /\ first_ok (rev (B "/x y"))
+  /\ splice_case (set_path true sx_u [92; 120]) (splice_path sx_u [92; 120]) (B "http://u:p@h" ++ [92; 120]) "http://u:p@h/x"
+  /\ path_arg_ok (sp_of sx_u) [92; 120]
+  /\ splice_case (set_path true qx_u []) (splice_path qx_u []) (B "a://h:80?q#f") "a://h:80?q#f"
+  /\ splice_case (ok_of (set_host true ex_hp ex_hp ex_hd qx_u (Some (B "x.y")))) (splice_host qx_u (B "x.y")) (B "a://x.y:80/p?q#f") "a://x.y:80/p?q#f"
+  /\ forallb (hostarg (sp_of qx_u)) (B "x.y") = true
+  /\ splice_case (ok_of (set_host true ex_hp ex_hp ex_hd sx_u (Some (B "abc")))) (splice_host sx_u (B "abc")) (B "http://u:p@abc/p") "http://u:p@abc/p"
+  /\ forallb (hostarg (sp_of sx_u)) (B "abc") = true.
+Proof. exact splice2_inhabited. Qed.
+
+(* 20. auth_end_ok - the premise of C06_frame_path - beyond parse results (C06_auth_end_parse): it holds of EVERY
+   canonical record, hence (C02: ReachC2_Canon; below: ReachC6) of tail-join results and along histories of the
+   canonical setters, query_pairs_mut sessions, set_path and set_host(Some) steps.  So does the invariant wfh.
+   NOT covered: file URLs (outside Canon; auth_end_ok is vacuous for the file scheme, but the scheme of a history's
+   record is not tracked there), joins other than tail references. *)
+Theorem C06_auth_end_canon : forall hp hpo hd u, Canon hp hpo hd u -> auth_end_ok u.
+Proof. exact Canon_auth_end_ok. Qed.
+Check C06_auth_end_canon : forall hp hpo hd u, Canon hp hpo hd u -> auth_end_ok u.
+Print Assumptions C06_auth_end_canon.
+
+Theorem C06_wfh_canon : forall hp hpo hd u, HostRT hp hpo hd -> Canon hp hpo hd u -> wfh u.
+Proof. intros hp hpo hd u HRT. exact (Canon_wfh true hp hpo hd HRT u). Qed.
+Check C06_wfh_canon : forall hp hpo hd u, HostRT hp hpo hd -> Canon hp hpo hd u -> wfh u.
+Print Assumptions C06_wfh_canon.
+
+(* 21. THE ASSEMBLY.  ReachC6 (Proofs/C06_All.v) = C02's ReachC2 - Url::parse of an input with a non-file scheme, joins
+   of a tail reference ("", "?q", "#f", "?q#f"), the ten canonical operations (set_fragment, set_query, set_port,
+   set_password, set_username and the quirks setters username / password / port / search / hash, every argument),
+   query_pairs_mut sessions - extended by set_path steps (argument '?'/'#'-free, empty or '/'-led) and
+   set_host(Some) steps (argument in hostarg, result outside F-C02-4) on URLs with an authority.
+   For every record u of such a history (host functions: C02's HostRT and host_above, both proved of the host model
+   under the IDNA hypothesis in C02/C09):
+     - failure: C06_atomic (every record whatsoever, every status-returning mutator);
+     - u is canonical (Canon), satisfies the invariant wfh and the premise auth_end_ok of the path theorems - so
+       C06_frame, C06_get, C06_couple, C06_wf, C06_nopanic, C06_frame_path and the four path-layout theorems apply to it;
+     - all_calls u: for a successful set_fragment / set_query / set_port / set_password / set_username / set_path /
+       set_host(Some) the result is canonical again (so all of this applies to it in turn), every component outside
+       the touched one reads the same, the touched one reads back as the text the parser state writes for the argument,
+       and - for arguments in the exact classes of sections 18 and 19 - Parser::parse_url on the old serialization with
+       the raw argument spliced in returns exactly the setter's record.
+   NOT in the assembly: removal calls (None / empty arguments; frame, get and couplings are in C06_frame / C06_get /
+   C06_couple for every wfh record, the canonical result in C02's set_*_Canon, parser agreement in sections 22 and 24 -
+   all for every canonical record, hence for every record of a ReachC6 history), set_scheme (no splice), set_ip_host,
+   path_segments_mut sessions (frame: C06_frame_path), the authority-less layouts for set_path / set_host, file URLs,
+   joins of non-tail references. *)
+Definition C06_all_statement : Prop := forall dbg hp hpo hd u, HostRT hp hpo hd -> host_above hp hpo hd ->
+  ReachC6 dbg hp hpo hd u ->
+  Canon hp hpo hd u /\ wfh u /\ auth_end_ok u /\ all_calls dbg hp hpo hd u.
+
+Theorem C06_all : C06_all_statement.
+Proof. exact all_reach. Qed.
+Check C06_all : forall dbg hp hpo hd u, HostRT hp hpo hd -> host_above hp hpo hd ->
+  ReachC6 dbg hp hpo hd u ->
+  Canon hp hpo hd u /\ wfh u /\ auth_end_ok u /\ all_calls dbg hp hpo hd u.
+Print Assumptions C06_all.
+
+(* the same for every canonical record, reachable or not *)
+Theorem C06_all_canon : forall dbg hp hpo hd u, HostRT hp hpo hd -> host_above hp hpo hd -> Canon hp hpo hd u ->
+  all_calls dbg hp hpo hd u.
+Proof. exact all_canon. Qed.
+Check C06_all_canon : forall dbg hp hpo hd u, HostRT hp hpo hd -> host_above hp hpo hd -> Canon hp hpo hd u ->
+  all_calls dbg hp hpo hd u.
+Print Assumptions C06_all_canon.
+
+(* ReachC6 contains C02's histories *)
+Theorem C06_reach_c2 : forall dbg hp hpo hd u, ReachC2 dbg hp hpo hd u -> ReachC6 dbg hp hpo hd u.
+Proof. exact ReachC2_C6. Qed.
+Check C06_reach_c2 : forall dbg hp hpo hd u, ReachC2 dbg hp hpo hd u -> ReachC6 dbg hp hpo hd u.
+Print Assumptions C06_reach_c2.
+
+(* all_calls, spelled out (the definition of Proofs/C06_All.v, pinned here) *)
+Theorem C06_all_calls_unfold : forall dbg hp hpo hd u, all_calls dbg hp hpo hd u <->
+  (forall x u', usv_list x -> set_fragment dbg u (Some x) = Some u' -> nlen (ser u') <= U32_MAX_P ->
+     Canon hp hpo hd u' /\ unchanged_but_fragment dbg u u' /\ path u' = path u
+     /\ fragment dbg u' = Some (Some (tnl_text T_FRAGMENT x))
+     /\ (first_ok (rev (35 :: x)) -> parse_url dbg hp hpo hd None None (splice_fragment u x) = POk u'))
+  /\ (forall x u', usv_list x -> set_query dbg u (Some x) = Some u' -> nlen (ser u') <= U32_MAX_P ->
+     Canon hp hpo hd u' /\ unchanged_but_query dbg u u' /\ path u' = path u
+     /\ query dbg u' = Some (Some (query_text u x))
+     /\ (no_hash x = true -> (fragment_start u = None -> first_ok (rev (63 :: x))) ->
+         parse_url dbg hp hpo hd None None (splice_query u x) = POk u'))
+  /\ (forall n u', n <= 65535 -> set_port dbg u (Some n) = Some (u', SOk) -> nlen (ser u') <= U32_MAX_P ->
+     Canon hp hpo hd u' /\ same_ids dbg u u' /\ same_back dbg u u'
+     /\ (exists sch, scheme u = Some sch /\ port u' = norm_port sch (Some n))
+     /\ parse_url dbg hp hpo hd None None (splice_port u n) = POk u')
+  /\ (forall y u', usv_list y -> set_password dbg u (Some y) = Some (u', SOk) -> nlen (ser u') <= U32_MAX_P ->
+     Canon hp hpo hd u'
+     /\ (scheme u' = scheme u /\ username dbg u' = username dbg u /\ host_str u' = host_str u /\ port u' = port u
+         /\ same_back dbg u u')
+     /\ password dbg u' = Some (match y with c :: r => Some (userinfo_enc (c :: r)) | [] => None end)
+     /\ (y <> [] -> forallb (plainc (sp_of u)) y = true ->
+         parse_url dbg hp hpo hd None None (splice_password u y) = POk u'))
+  /\ (forall x u', usv_list x -> set_username dbg u x = Some (u', SOk) -> nlen (ser u') <= U32_MAX_P ->
+     Canon hp hpo hd u'
+     /\ (scheme u' = scheme u /\ password dbg u' = password dbg u /\ host_str u' = host_str u /\ port u' = port u
+         /\ same_back dbg u u')
+     /\ (exists cur, username dbg u = Some cur
+           /\ username dbg u' = Some (if list_eqb cur (utf8_encode x) then cur else userinfo_enc x))
+     /\ (forallb (fun c => plainc (sp_of u) c && negb (c =? 58)) x = true ->
+         parse_url dbg hp hpo hd None None (splice_username u x) = POk u'))
+  /\ (forall x u', has_authority_b u = true -> usv_list x -> set_path dbg u x = Some u' -> nlen (ser u') <= U32_MAX_P ->
+     wfh u' /\ same_front dbg u u' /\ query dbg u' = query dbg u /\ fragment dbg u' = fragment dbg u
+     /\ (exists P, path u' = Some P /\ new_path_ok P)
+     /\ (forallb no_qh x = true -> path_arg_ok (sp_of u) x ->
+         Canon hp hpo hd u'
+         /\ ((query_start u = None -> fragment_start u = None -> first_ok (rev x)) ->
+             parse_url dbg hp hpo hd None None (splice_path u x) = POk u')))
+  /\ (forall x u', has_authority_b u = true -> forallb (hostarg (sp_of u)) x = true ->
+     set_host dbg hp hpo hd u (Some x) = Some (u', SOk) -> empty_host_ok u u' -> nlen (ser u') <= U32_MAX_P ->
+     Canon hp hpo hd u'
+     /\ (exists h, (if sp_of u then hp x else hpo x) = Ok h /\ host_set_post dbg hd u u' h)
+     /\ (usv_list x -> (nskipn (host_end u) (ser u) = [] -> first_ok (rev x)) ->
+         parse_url dbg hp hpo hd None None (splice_host u x) = POk u')).
+Proof. intros dbg hp hpo hd u. unfold all_calls. split; intros H; exact H. Qed.
+Print Assumptions C06_all_calls_unfold.
+
+(* non-vacuity: a ReachC6 history with the host functions ex_hp / ex_hd - parse "a://h:80/p?q#f", set_path("/a b/../c"),
+   set_host(Some "x.y"), set_fragment(Some "g") - ends in "a://x.y:80/c?q#g" *)
+Example C06_all_inhabited :
+  HostRT ex_hp ex_hp ex_hd /\ host_above ex_hp ex_hp ex_hd
+  /\ exists u1 u2 u3, ReachC6 true ex_hp ex_hp ex_hd qx_u
+    /\ set_path true qx_u (B "/a b/../c") = Some u1 /\ ReachC6 true ex_hp ex_hp ex_hd u1
+    /\ set_host true ex_hp ex_hp ex_hd u1 (Some (B "x.y")) = Some (u2, SOk) /\ ReachC6 true ex_hp ex_hp ex_hd u2
+    /\ set_fragment true u2 (Some (B "g")) = Some u3 /\ ReachC6 true ex_hp ex_hp ex_hd u3
+    /\ ser u3 = B "a://x.y:80/c?q#g".
+Proof. split; [exact (proj1 ex_host_RT)|]. split; [exact (proj2 ex_host_RT) | exact reach6_inhabited]. Qed.
+
+(* 22. WHOLE-URL parser agreement for the REMOVAL calls set_fragment(None), set_query(None), set_port(None): the result
+   is canonical (C02's set_*_Canon), its serialization IS the old serialization with the component and its delimiter cut
+   out (cut_fragment / cut_query / cut_port, read off the record), and Parser::parse_url on that text returns exactly the
+   setter's record.  Premise for the first two: the cut text does not end in a C0 control or space - this leaves out
+   exactly the documented coupling "removing the last of query / fragment from an opaque path strips its trailing
+   spaces" (C06_frame states it; Url::parse would trim them from its input too).  set_port(None): no premise.
+   set_password(None / "") is section 24.  NOT covered: set_host(None) (C06_couple / C06_frame state its frame and
+   couplings; its excluded classes F-C06-5 / F-C02-2 are real defects). *)
+From RU Require Import Proofs.C06_SpliceNone.
+
+Theorem C06_splice_agreement_remove_fragment : forall dbg hp hpo hd u u', HostRT hp hpo hd -> Canon hp hpo hd u ->
+  first_ok (rev (cut_fragment u)) -> set_fragment dbg u None = Some u' -> nlen (ser u') <= U32_MAX_P ->
+  ser u' = cut_fragment u /\ parse_url dbg hp hpo hd None None (cut_fragment u) = POk u'.
+Proof. intros dbg hp hpo hd u u' HRT. exact (splice_agreement_remove_fragment dbg hp hpo hd HRT u u'). Qed.
+Check C06_splice_agreement_remove_fragment : forall dbg hp hpo hd u u', HostRT hp hpo hd -> Canon hp hpo hd u ->
+  first_ok (rev (cut_fragment u)) -> set_fragment dbg u None = Some u' -> nlen (ser u') <= U32_MAX_P ->
+  ser u' = cut_fragment u /\ parse_url dbg hp hpo hd None None (cut_fragment u) = POk u'.
+Print Assumptions C06_splice_agreement_remove_fragment.
+
+Theorem C06_splice_agreement_remove_query : forall dbg hp hpo hd u u', HostRT hp hpo hd -> Canon hp hpo hd u ->
+  first_ok (rev (cut_query u)) -> set_query dbg u None = Some u' -> nlen (ser u') <= U32_MAX_P ->
+  ser u' = cut_query u /\ parse_url dbg hp hpo hd None None (cut_query u) = POk u'.
+Proof. intros dbg hp hpo hd u u' HRT. exact (splice_agreement_remove_query dbg hp hpo hd HRT u u'). Qed.
+Check C06_splice_agreement_remove_query : forall dbg hp hpo hd u u', HostRT hp hpo hd -> Canon hp hpo hd u ->
+  first_ok (rev (cut_query u)) -> set_query dbg u None = Some u' -> nlen (ser u') <= U32_MAX_P ->
+  ser u' = cut_query u /\ parse_url dbg hp hpo hd None None (cut_query u) = POk u'.
+Print Assumptions C06_splice_agreement_remove_query.
+
+Theorem C06_splice_agreement_remove_port : forall dbg hp hpo hd u u', HostRT hp hpo hd -> Canon hp hpo hd u ->
+  set_port dbg u None = Some (u', SOk) -> nlen (ser u') <= U32_MAX_P ->
+  ser u' = cut_port u /\ parse_url dbg hp hpo hd None None (cut_port u) = POk u'.
+Proof. intros dbg hp hpo hd u u' HRT. exact (splice_agreement_remove_port dbg hp hpo hd HRT u u'). Qed.
+Check C06_splice_agreement_remove_port : forall dbg hp hpo hd u u', HostRT hp hpo hd -> Canon hp hpo hd u ->
+  set_port dbg u None = Some (u', SOk) -> nlen (ser u') <= U32_MAX_P ->
+  ser u' = cut_port u /\ parse_url dbg hp hpo hd None None (cut_port u) = POk u'.
+Print Assumptions C06_splice_agreement_remove_port.
+
+(* the hypotheses are met on "a://h:80/p?q#f": the cut texts are "a://h:80/p?q", "a://h:80/p#f", "a://h/p?q#f" *)
+Example C06_splice_agreement_remove_inhabited :
+  (exists u', set_fragment true qx_u None = Some u' /\ cut_fragment qx_u = B "a://h:80/p?q" /\ first_ok (rev (cut_fragment qx_u)))
+  /\ (exists u', set_query true qx_u None = Some u' /\ cut_query qx_u = B "a://h:80/p#f" /\ first_ok (rev (cut_query qx_u)))
+  /\ (exists u', set_port true qx_u None = Some (u', SOk) /\ cut_port qx_u = B "a://h/p?q#f").
+Proof.
+  split; [|split]; eexists; (split; [vm_compute; reflexivity|]); repeat split; vm_compute; reflexivity.
+Qed.
+
+(* 23. (a) state-level path agreement on EVERY non-opaque layout - authority, '/'-led path without authority, '/.' marker -
+   in one statement (C06_parser_agreement_set_path is the authority case): the record set_path returns is with_path u P
+   (the old record with P in the path position and the offsets behind it shifted; Proofs/C06_Path.v), and the parser's
+   path-start state in context UrlParser on p X behind the old front writes exactly P and hands X on.  Premise
+   byte_eqb (ser u) (scheme_end u + 1) 47: the path is not opaque.  (On the authority-less layouts with_path u P is
+   well-formed exactly as C06_frame_path_noauth / _marker say.)
+   (b) the exclusions of section 19 are exact: on "a://h:80/p?q#f" a set_path argument that is not '/'-led ("x"), one with
+   a '?' ("/a?b"), a set_host argument with a port part ("x:81") and the empty host on a URL with a port (F-C02-4) each
+   give a successful setter call whose record Parser::parse_url on the spliced text does NOT return. *)
+From RU Require Import Proofs.C06_SpliceMore.
+
+Theorem C06_parser_agreement_set_path_layouts : forall dbg u p u', wf_b u = true ->
+  byte_eqb (ser u) (scheme_end u + 1) 47 = true -> usv_list p -> auth_end_ok u ->
+  forallb no_qh p = true -> match p with c :: _ => is_tnl c = false | [] => True end ->
+  set_path dbg u p = Some u' ->
+  exists P, u' = with_path u P /\ new_path_ok P
+    /\ forall X, C06_Agree.qh_tail X ->
+         exists hh, parse_path_start dbg CUrlParser (stype u) true (nfirstn (path_start u) (ser u)) (p ++ X)
+                    = POk (nfirstn (path_start u) (ser u) ++ P, hh, X).
+Proof. exact agree_path_layouts. Qed.
+Check C06_parser_agreement_set_path_layouts : forall dbg u p u', wf_b u = true ->
+  byte_eqb (ser u) (scheme_end u + 1) 47 = true -> usv_list p -> auth_end_ok u ->
+  forallb no_qh p = true -> match p with c :: _ => is_tnl c = false | [] => True end ->
+  set_path dbg u p = Some u' ->
+  exists P, u' = with_path u P /\ new_path_ok P
+    /\ forall X, C06_Agree.qh_tail X ->
+         exists hh, parse_path_start dbg CUrlParser (stype u) true (nfirstn (path_start u) (ser u)) (p ++ X)
+                    = POk (nfirstn (path_start u) (ser u) ++ P, hh, X).
+Print Assumptions C06_parser_agreement_set_path_layouts.
+
+(* the premises are met on the authority-less "a:/p" (sp_w1) and the marker URL "a:/.//p" (mk_w) *)
+Example C06_parser_agreement_set_path_layouts_inhabited :
+  wf_b sp_w1 = true /\ has_authority_b sp_w1 = false /\ byte_eqb (ser sp_w1) (scheme_end sp_w1 + 1) 47 = true /\ auth_end_ok sp_w1
+  /\ (exists u', set_path true sp_w1 (B "/x y") = Some u' /\ ser u' = B "a:/x%20y")
+  /\ wf_b mk_w = true /\ byte_eqb (ser mk_w) (scheme_end mk_w + 1) 47 = true /\ auth_end_ok mk_w
+  /\ (exists u', set_path true mk_w (B "//q") = Some u' /\ ser u' = B "a:/.//q").
+Proof.
+  split; [vm_compute; reflexivity|]. split; [vm_compute; reflexivity|]. split; [vm_compute; reflexivity|].
+  split; [intros H; vm_compute in H; discriminate H|].
+  split; [eexists; split; vm_compute; reflexivity|].
+  split; [vm_compute; reflexivity|]. split; [vm_compute; reflexivity|].
+  split; [intros H; vm_compute in H; discriminate H|].
+  eexists; split; vm_compute; reflexivity.
+Qed.
+
+Theorem C06_splice_exclusions_refuted :
+  Canon ex_hp ex_hp ex_hd qx_u /\ has_authority_b qx_u = true
+  /\ parse_differs (set_path true qx_u (B "x")) (splice_path qx_u (B "x")) /\ ~ path_arg_ok (sp_of qx_u) (B "x")
+  /\ parse_differs (set_path true qx_u (B "/a?b")) (splice_path qx_u (B "/a?b")) /\ forallb no_qh (B "/a?b") = false
+  /\ parse_differs (ok_of (set_host true ex_hp ex_hp ex_hd qx_u (Some (B "x:81")))) (splice_host qx_u (B "x:81"))
+  /\ forallb (hostarg (sp_of qx_u)) (B "x:81") = false
+  /\ parse_differs (ok_of (set_host true ex_hp ex_hp ex_hd qx_u (Some []))) (splice_host qx_u [])
+  /\ (exists u', set_host true ex_hp ex_hp ex_hd qx_u (Some []) = Some (u', SOk) /\ ~ empty_host_ok qx_u u').
+Proof. exact splice_exclusions_refuted. Qed.
+Print Assumptions C06_splice_exclusions_refuted.
+
+(* 24. the removal of the password: set_password(None) and set_password(Some "") (pw_arg_empty) on a canonical record -
+   the serialization of the result is the old one with ":password" cut out, and the '@' too when the user name is empty
+   (cut_password, read off the record; the old text itself when there was no password), and Parser::parse_url on that
+   text returns exactly the setter's record.  No exclusion.  (set_username("") is an instance of
+   C06_splice_agreement_set_username.) *)
+From RU Require Import Proofs.C02_SetCred Proofs.C06_SpliceNonePw.
+
+Theorem C06_splice_agreement_remove_password : forall dbg hp hpo hd u pw u', HostRT hp hpo hd -> Canon hp hpo hd u ->
+  pw_arg_empty pw -> set_password dbg u pw = Some (u', SOk) -> nlen (ser u') <= U32_MAX_P ->
+  ser u' = cut_password u /\ parse_url dbg hp hpo hd None None (cut_password u) = POk u'.
+Proof. intros dbg hp hpo hd u pw u' HRT. exact (splice_agreement_remove_password dbg hp hpo hd HRT u pw u'). Qed.
+Check C06_splice_agreement_remove_password : forall dbg hp hpo hd u pw u', HostRT hp hpo hd -> Canon hp hpo hd u ->
+  pw_arg_empty pw -> set_password dbg u pw = Some (u', SOk) -> nlen (ser u') <= U32_MAX_P ->
+  ser u' = cut_password u /\ parse_url dbg hp hpo hd None None (cut_password u) = POk u'.
+Print Assumptions C06_splice_agreement_remove_password.
+
+(* on "http://u:p@h/p" the cut text is "http://u@h/p"; after set_username("") ("http://:p@h/p") it is "http://h/p" *)
+Example C06_splice_agreement_remove_password_inhabited :
+  pw_arg_empty None /\ pw_arg_empty (Some [])
+  /\ (exists u', set_password true sx_u None = Some (u', SOk) /\ cut_password sx_u = B "http://u@h/p")
+  /\ (exists u1 u', set_username true sx_u [] = Some (u1, SOk) /\ ser u1 = B "http://:p@h/p"
+        /\ set_password true u1 (Some []) = Some (u', SOk) /\ cut_password u1 = B "http://h/p").
+Proof.
+  split; [exact I|]. split; [exact I|].
+  split; [eexists; split; vm_compute; reflexivity|].
+  eexists. eexists. split; [vm_compute; reflexivity|]. split; [vm_compute; reflexivity|]. split; vm_compute; reflexivity.
 Qed.
